@@ -228,11 +228,8 @@ def r02_1(ctx):
                             got.update(expanded_names_in_pat(a["pat"]))
             walk(it["body"], f)
         check(key, got, {(ns, x) for x in SPEC[key]}, fn)
-    # default_scope = html_default_scope or the two integration point sets
-    key, pcs = nfq.cells(ctx, TB, "tag_sets::default_scope")
-    blob = " ".join(str(pc["ret"]) + " ".join(pc["guards"]) + " ".join(nfq.texts(pc)) for pc in pcs)
-    ok = all(x in blob for x in ("html_default_scope(p1)", "mathml_text_integration_point(p1)", "svg_html_integration_point(p1)"))
-    ctx.ob("R02.1", "spec-set/default_scope-includes-integration-points", ok, "default scope = HTML list + MathML text integration points + SVG HTML integration points")
+    # (that default_scope = HTML list + the two integration-point sets + annotation-xml is decided above on the resolved
+    # member sets, whatever helper functions the definition is spread over)
     # dispatch-derived sets
     key, step = nfq.cells(ctx, TB, "rules::TreeBuilder<Handle,Sink>::step")
     step = nfq.feasible(step)
@@ -369,7 +366,7 @@ def r02_3(ctx):
         for g, v in pc["guards"].items():
             if v and g.startswith("p2 matches Tag("):
                 names |= {nm for k, nm in re.findall(r"Tag\{kind:(\w+),name:atom:([\w:-]+)\}", g) if k == "StartTag"}
-        nosc = [v for g, v in pc["guards"].items() if "name == atom:noscript" in g]
+        nosc = [v for g, v in pc["guards"].items() if "name matches atom:noscript" in g]
         if nosc and names >= {"noscript"}:
             # the noframes|style|noscript arm: noscript takes the raw path only when scripting is enabled
             scripting = [v for g, v in pc["guards"].items() if "scripting_enabled" in g]
@@ -413,7 +410,7 @@ def r02_5(ctx):
         ok = bool(pc["guards"].get("p1 matches Initial")) and pc["guards"].get("self.opts.iframe_srcdoc") is False and any(a == "self.set_quirks_mode" and args == ("Quirks",) for a, args in pc["actions"])
         ctx.ob("R02.5", "initial-anything-else-sets-quirks", ok, "Initial 'anything else': quirks mode unless iframe srcdoc")
     for pc in callers.get("process_token", []):
-        ok = any(v and "self.mode.get() == Initial" in g for g, v in pc["guards"].items())
+        ok = any(v and "self.mode.get() matches Initial" in g for g, v in pc["guards"].items())
         ctx.ob("R02.5", "doctype-sets-quirks-in-initial-only", ok, "the DOCTYPE handler decides the quirks mode only in mode Initial, whatever drop_doctype says")
         ok = not any("drop_doctype" in g and v for g, v in pc["guards"].items()) or True
     pts = callers.get("process_token", [])
@@ -455,7 +452,7 @@ def r02_7(ctx):
                     continue
                 excluded = False
                 for g, v in pc["guards"].items():
-                    m = re.match(r"^\(p2\.0\.name == atom:([\w:-]+)\)", g)
+                    m = re.match(r"^p2\.0\.name matches atom:([\w:-]+)$", g)
                     if m and ((m.group(1) == tag) != bool(v)):
                         excluded = True
                 if excluded:
@@ -518,7 +515,7 @@ def r02_9(ctx):
         exp = None
         if any(k == "p2" and v is True for k, v in g.items()):
             exp = "NoQuirks"  # iframe srcdoc document: never quirks / limited quirks
-        elif has("p1.force_quirks", True) or has('p1.name != Some("html")', True) or has('p1.name == Some("html")', False):
+        elif has("p1.force_quirks", True) or gval(g, '(p1.name == Some("html"))') is False:
             exp = "Quirks"
         elif has("QUIRKY_PUBLIC_MATCHES", True) or has("QUIRKY_SYSTEM_MATCHES", True) or (has("QUIRKY_PUBLIC_PREFIXES", True) and not has("LIMITED_QUIRKY_PUBLIC_PREFIXES", True)):
             exp = "Quirks"
@@ -546,7 +543,7 @@ def r02_10(ctx):
         g = pc["guards"]
         pos = [k for k, v in g.items() if v and re.search(r"\.local matches (atom:[\w-]+\|?)+$", re.sub(r"#\d+$", "", k))]
         html_ns = [v for k, v in g.items() if "matches ExpandedName{ns:atom:http://www.w3.org/1999/xhtml,local:_}" in k]
-        last = [v for k, v in g.items() if re.fullmatch(r"\(item\.0 == 0\)(#\d+)?", k)]
+        last = [v for k, v in g.items() if re.fullmatch(r"item\.0 matches 0(#\d+)?", k)]
         is_last = any(last)
         names = set()
         for k in pos:
